@@ -85,6 +85,44 @@ def setPreContext (n : Nat) (text : List α) : List α := text.reverse.take n
 /-- src: buffer.rs::set_post_context — the first `n` characters. -/
 def setPostContext (n : Nat) (text : List α) : List α := text.take n
 
+/-! ### context storage on the raw arrays
+
+`hb_buffer_t.context` is two arrays of `CONTEXT_LENGTH` slots, `context_len` two lengths.  `set_pre_context` /
+`set_post_context` reset only the LENGTH (`clear_context`) and overwrite the leading slots: whatever an earlier
+call stored behind the new length stays in the array.  `UnicodeBuffer::add` zeroes the post-context length and
+leaves the array alone.  Readers must therefore look at the first `context_len` slots only. -/
+
+/-- src: buffer.rs::set_pre_context / set_post_context, the array side: `new` (already in array order) overwrites
+    the leading slots, the length becomes the number of characters stored. -/
+def storeContext (slots new : List α) : List α × Nat :=
+  let new := new.take slots.length
+  (new ++ slots.drop new.length, new.length)
+
+/-- the two context arrays with their lengths -/
+structure CtxState (α : Type) where
+  pre : List α
+  preLen : Nat
+  post : List α
+  postLen : Nat
+  deriving Repr
+
+/-- src: buffer.rs::hb_buffer_t::new — all slots NUL (`nul`), lengths 0 -/
+def CtxState.fresh (n : Nat) (nul : α) : CtxState α :=
+  { pre := List.replicate n nul, preLen := 0, post := List.replicate n nul, postLen := 0 }
+
+inductive CtxCall (α : Type) where
+  | pre (text : List α)      -- UnicodeBuffer::set_pre_context
+  | post (text : List α)     -- UnicodeBuffer::set_post_context
+  | add (text : List α)      -- UnicodeBuffer::add for every character: `context_len[1] = 0`
+
+/-- one public context call on the raw state -/
+def CtxState.call (st : CtxState α) : CtxCall α → CtxState α
+  | .pre t => let r := storeContext st.pre (t.reverse.take st.pre.length); { st with pre := r.1, preLen := r.2 }
+  | .post t => let r := storeContext st.post (t.take st.post.length); { st with post := r.1, postLen := r.2 }
+  | .add t => if t.isEmpty then st else { st with postLen := 0 }
+
+def CtxState.calls (st : CtxState α) (cs : List (CtxCall α)) : CtxState α := cs.foldl CtxState.call st
+
 /-! ### arabic_joining -/
 
 /-- src: ot_shaper_arabic.rs::arabic_joining, loop "Check pre-context":
@@ -140,6 +178,12 @@ def arabicJoining (tbl : StateTable) (preCtx ws postCtx : List JoiningType) : Ex
   let s ← preLoop tbl preCtx 0
   let st ← mainLoop tbl ws 0 { acts := [], prev := none, state := s }
   postLoop tbl postCtx st
+
+/-- src: ot_shaper_arabic.rs::arabic_joining on the buffer's RAW context: the loops run over
+    `0..context_len[side]`, i.e. over the first `len` slots of each array; slots behind the length are not read. -/
+def arabicJoiningRaw (tbl : StateTable) (preSlots : List JoiningType) (preLen : Nat) (ws : List JoiningType)
+    (postSlots : List JoiningType) (postLen : Nat) : Except Panic (List Nat) :=
+  arabicJoining tbl (preSlots.take preLen) ws (postSlots.take postLen)
 
 /-- The API view: contexts given as text in logical order, stored through
     `set_pre_context` / `set_post_context` (which keep `ctxLen` characters). -/
